@@ -102,7 +102,9 @@ def fam_SAN(tier, **kw):
 
 def fam_SC32(tier, **kw):
     """The 17-, 24- and 32-column archetypes (feature 32_components, arities [1,2,3,4,17,24,32] -> indices 4,5,6)."""
-    L, D = (2, 4) if tier == "quick" else (2, 6)
+    # column 17 is heap-owning, column 24 a zero-sized Drop type, column 32 a tracked type: each is the LAST column of one archetype
+    L, D = (2, 5) if tier == "quick" else (2, 7)
+    kw.setdefault("max_clones", 1)
     return [scen("S-C32/arity%d" % ar, [idx], [1], L, D, iter_destroy=[idx], iter_destroy_max_n=2, key_kinds=[0, 1, 3], **kw) for idx, ar in ((4, 17), (5, 24), (6, 32))]
 
 
